@@ -565,7 +565,7 @@ func New(h host.Host, options ...Option) (_ *IpfsDHT, err error)
   ensures [error-tears-down-what-was-started] imp(err != nil && $made, $torn)
   ensures [a-dht-or-an-error] imp(err == nil, result0 != nil)
   # dhtcfg.Defaults (always applied first) installs a message-sender builder; no option clears it: ASSUMED
-  ghost at call(Validate): assume(cfg.MsgSenderBuilder != nil)
+  ghost at before call(MsgSenderBuilder): assume(cfg.MsgSenderBuilder != nil)
   ghost at call(makeDHT): $made = ($ret1 == nil)
   ghost at call(Close): $torn = true
 # (not verified: ASSUMED that makeDHT returns a DHT exactly when it returns no error)
